@@ -163,8 +163,8 @@ func init() {
 		alt(`func (w *Worker) handleDelete(c *AsyncC, op *OpDelete) { var err = op.deleteFn(c.ctx, op.k); if err != nil { c.SetR(nil, err); return }; c.SetR(nil, nil) }`):                    "noDelete",
 	}
 	cfgShapes[fWorker+"|Worker.Start"] = map[string]string{
-		alt(`func (w *Worker) Start() { go w.runLoop() }`):                            "unguarded",
-		alt(`func (w *Worker) Start() { w.startOnce.Do(func() { go w.runLoop() }) }`): "once",
+		alt("func (w *Worker) Start() {\n\tgo w.runLoop()\n}"):                                    "unguarded",
+		alt("func (w *Worker) Start() {\n\tw.startOnce.Do(func() {\n\t\tgo w.runLoop()\n\t})\n}"): "once",
 	}
 }
 
@@ -238,6 +238,28 @@ func extract(repo, leanDir string) {
 				changed = append(changed, r.key())
 			}
 		}
+		if !ok && g.name == "facadeShape" {
+			// the whole group may have the key-normalising shape instead
+			alt := true
+			for k, want := range facadeWithKeyNormalisation {
+				parts := strings.SplitN(k, "|", 2)
+				recv, name := "", parts[1]
+				if i := strings.Index(name, "."); i >= 0 {
+					recv, name = name[:i], name[i+1:]
+				}
+				alt = alt && shapeOf(repo, fnRef{parts[0], recv, name}) == want
+			}
+			if alt {
+				ok = true
+				var keep []string
+				for _, c := range changed {
+					if !strings.HasPrefix(c, fFacade+"|") {
+						keep = append(keep, c)
+					}
+				}
+				changed = keep
+			}
+		}
 		fs = append(fs, gofacts.LeanBool(ok))
 	}
 	locks := true
@@ -283,17 +305,18 @@ var (
 type pair struct{ k, v int }
 
 type store struct {
-	mu      sync.Mutex
-	m       map[int]int
-	faults  []byte        // one token per callback invocation: '0' ok, '1' fail, 'c' ok but the caller's context is cancelled meanwhile
-	cancel  func()        // cancels the context of the operation in flight
-	block   chan struct{} // when set, the next callback parks on it once (pile)
-	applied map[int][]int // key -> data values applied by upsert callbacks, in order (pile)
-	trace   []string
-	busy    map[int]bool // key -> a callback for it is executing (serialisation monitor)
-	bad     map[int]bool // keys already reported incoherent in this group (later sightings are consequences)
-	hits    map[string]string
-	slow    bool // stress: widen the window inside callbacks
+	mu             sync.Mutex
+	m              map[int]int
+	faults         []byte        // one token per callback invocation: '0' ok, '1' fail, 'c' ok but the caller's context is cancelled meanwhile
+	cancel         func()        // cancels the context of the operation in flight
+	block          chan struct{} // when set, the next callback parks on it once (pile)
+	applied        map[int][]int // key -> data values applied by upsert callbacks, in order (pile)
+	trace          []string
+	busy           map[int]bool // key -> a callback for it is executing (serialisation monitor)
+	bad            map[int]bool // keys already reported incoherent in this group (later sightings are consequences)
+	hits           map[string]string
+	slow           bool // stress: widen the window inside callbacks
+	extraConsumers bool // a second Start() added consumers to this group
 }
 
 // model value 0 is the Go value nil: a callback may legitimately hand back (nil, nil) for an existing row
@@ -309,6 +332,10 @@ func newStore() *store {
 }
 
 func (s *store) hit(key, what string) {
+	if s.extraConsumers && key != "C15:WorkerGrp.Start:second-call-adds-consumer" {
+		// whatever else goes wrong in a group with two consumers per worker is a consequence of that one root cause
+		key, what = "C15:WorkerGrp.Start:two-consumers-break-serial-application", "with the extra consumer(s) running: "+what
+	}
 	if _, ok := s.hits[key]; !ok {
 		s.hits[key] = what
 	}
@@ -461,12 +488,14 @@ func newGroup(lru bool, capN, workers int) *group { return newGroupDeep(lru, cap
 
 // start calls Start() again; a second call must not add consumers (goroutines inside runLoop are counted)
 func (gr *group) start() {
+	_ = c14q.Quiesce(20 * time.Second) // goroutines of the first Start() show their runLoop frame only once they ran
 	before := c14q.CountIn("mux.(*Worker).runLoop")
 	gr.g.Start()
 	_ = c14q.Quiesce(20 * time.Second)
 	if after := c14q.CountIn("mux.(*Worker).runLoop"); after > before {
 		gr.extra += after - before
 		gr.st.mu.Lock()
+		gr.st.extraConsumers = true
 		gr.st.hit("C15:WorkerGrp.Start:second-call-adds-consumer", fmt.Sprintf("a second Start() started %d more consumer goroutine(s) for %d worker(s)", after-before, len(gr.facades)))
 		gr.st.mu.Unlock()
 	}
